@@ -101,6 +101,68 @@ theorem dbscan_ids_contiguous :
 
 end dbscan
 
+/-! ### DBSCAN in the terms of the definition: neighbourhood `{j < n | dist i j < tol}` of a symmetric distance
+
+`rangeQuery dist tol n` satisfies the three hypotheses of the section above for **every** symmetric
+`dist`, so the clauses hold for the labelling computed from it, with nothing assumed about an index. -/
+section metric
+variable {α : Type} [LT α] [DecidableLT α] (dist : Nat → Nat → α) (tol : α) (mp n : Nat)
+
+theorem mem_rangeQuery (i j : Nat) : j ∈ rangeQuery dist tol n i ↔ i < n ∧ j < n ∧ dist i j < tol := by
+  unfold rangeQuery
+  by_cases h : i < n <;> simp [h]
+
+theorem rangeQuery_range (i : Nat) : ∀ j ∈ rangeQuery dist tol n i, j < n :=
+  fun j h => ((mem_rangeQuery dist tol n i j).mp h).2.1
+
+theorem rangeQuery_nodup (i : Nat) : (rangeQuery dist tol n i).Nodup := by
+  unfold rangeQuery
+  split
+  · exact (List.nodup_range).sublist List.filter_sublist
+  · exact List.nodup_nil
+
+theorem rangeQuery_symm (hsymm : ∀ i j, dist i j = dist j i) (i j : Nat) :
+    j ∈ rangeQuery dist tol n i → i ∈ rangeQuery dist tol n j := by
+  intro h
+  obtain ⟨h1, h2, h3⟩ := (mem_rangeQuery dist tol n i j).mp h
+  exact (mem_rangeQuery dist tol n j i).mpr ⟨h2, h1, by rw [hsymm j i]; exact h3⟩
+
+/-- **the labelling of the definition**: with the neighbourhood `{j | dist x j < tol}` of any symmetric
+distance, a sample is labelled exactly when at least `min_points` samples (itself included, when
+`dist x x < tol`) lie within the tolerance of it, or it lies within the tolerance of such a sample. -/
+theorem dbscan_labelled_iff_metric (hsymm : ∀ i j, dist i j = dist j i) (x : Nat) (hx : x < n) :
+    (∃ v, isLab (dbscan (some (rangeQuery dist tol n)) mp n) x v) ↔
+      (mp ≤ (rangeQuery dist tol n x).length ∨
+        ∃ y, y < n ∧ mp ≤ (rangeQuery dist tol n y).length ∧ dist y x < tol) := by
+  rw [dbscan_labelled_iff (rangeQuery dist tol n) mp n (rangeQuery_range dist tol n)
+    (rangeQuery_nodup dist tol n) (rangeQuery_symm dist tol n hsymm) x hx]
+  unfold core
+  constructor
+  · rintro (a | ⟨y, y1, y2⟩)
+    · exact Or.inl a
+    · obtain ⟨h1, _, h3⟩ := (mem_rangeQuery dist tol n y x).mp y2
+      exact Or.inr ⟨y, h1, y1, h3⟩
+  · rintro (a | ⟨y, y1, y2, y3⟩)
+    · exact Or.inl a
+    · exact Or.inr ⟨y, y2, (mem_rangeQuery dist tol n y x).mpr ⟨y1, hx, y3⟩⟩
+
+/-- the number of samples within the tolerance of `x` is what `core` counts -/
+theorem rangeQuery_length (x : Nat) (hx : x < n) :
+    (rangeQuery dist tol n x).length = ((List.range n).filter fun j => decide (dist x j < tol)).length := by
+  unfold rangeQuery; rw [if_pos hx]
+
+end metric
+
+/-- non-vacuity: samples at 0, 1, 2, 9 on a line (distance `|a - b|` on naturals, symmetric), tolerance 2,
+`min_points = 3`: sample 1 is core, 0 and 2 border, 3 noise -/
+def exLine (i j : Nat) : Nat :=
+  let xs := [0, 1, 2, 9]
+  let a := xs[i]?.getD 0; let b := xs[j]?.getD 0
+  if a < b then b - a else a - b
+example : ∀ i j, exLine i j = exLine j i := by
+  intro i j; unfold exLine; simp only; split <;> split <;> omega
+example : dbscan (some (rangeQuery exLine 2 4)) 3 4 = [some 0, some 0, some 0, none] := by decide
+
 /-- non-vacuity: a chain `0 - 1 - 2 - 3`, sample 4 isolated, `min_points = 3`: the relation is
 symmetric, duplicate free, in range; samples 1, 2 are core, 0 and 3 border, 4 noise. -/
 def exNbrs : Nat → List Nat
@@ -158,6 +220,34 @@ theorem optics_core_distance_index_independent (nbrs nbrs' : Nat → List Nat) (
     coreDist dist mp i (findNeighbors nbrs dist i) = coreDist dist mp i (findNeighbors nbrs' dist i) := by
   rw [coreDist_eq, coreDist_eq, sorted_dists_unique nbrs nbrs' dist i h]
 
+/-- `F::max` of the model is `max` of the order -/
+theorem fmax_eq_max (a b : D) : fmax a b = max a b := by
+  unfold fmax
+  by_cases h : a < b
+  · rw [if_pos h, max_eq_right (le_of_lt h)]
+  · rw [if_neg h, max_eq_left (not_lt.mp h)]
+
+/-- **reachability**: the reachability distance of a listed sample `e` is undefined, or it equals
+`max(core distance of o, dist(e, o))` for a sample `o` that is listed **strictly earlier** (position
+`q < p`), is a core sample (`o.core = some c`) and has `e` in range (`e.index ∈ nbrs o.index`).
+This is the statement's clause "either undefined or equals max(core distance of o, distance to o) for
+some core point o within the tolerance that is listed no later than the sample". -/
+theorem optics_reachability_witness (nbrs : Nat → List Nat) (dist : Nat → Nat → D) (mp n : Nat)
+    (hrange : ∀ i, ∀ j ∈ nbrs i, j < n) :
+    ∀ (p : Nat) (e : Entry D), (optics (some nbrs) dist mp n)[p]? = some e → ∀ r : D, e.reach = some r →
+      ∃ (q : Nat) (o : Entry D) (c : D), q < p ∧ (optics (some nbrs) dist mp n)[q]? = some o ∧ o.core = some c ∧
+        e.index ∈ nbrs o.index ∧ r = max c (dist e.index o.index) := by
+  intro p e he r hr
+  have h := Optics.foldl_RInv n nbrs dist mp hrange n (Nat.le_refl n)
+  obtain ⟨o, ho, c, h1, h2, h3⟩ := h.listed p e he r hr
+  obtain ⟨q, hq⟩ := List.mem_iff_getElem?.mp ho
+  rw [List.getElem?_take] at hq
+  by_cases hqp : q < p
+  · rw [if_pos hqp] at hq
+    exact ⟨q, o, c, hqp, hq, h1, h2, by rw [h3, fmax_eq_max]⟩
+  · rw [if_neg hqp] at hq
+    exact absurd hq (by simp)
+
 end optics
 
 /-- **OPTICS lists every sample exactly once**: no position occurs twice in the ordering and the
@@ -205,11 +295,87 @@ example : Optics.coreDist exDist 3 0 [0, 2, 3, 4] = some 5 := by decide
 example : ([0, 2, 3, 4] : List Nat).Perm [0, 2, 4, 3] := by decide
 
 
+/-- non-vacuity of `optics_reachability_witness`: two samples at distance 6 within the tolerance,
+`min_points = 2`: sample 0 starts (core distance 6, reachability undefined), sample 1 follows with
+reachability `6 = max(core(0), dist(1,0))`, witness sample 0 listed before it. -/
+example : ((Optics.optics (some fun _ => [0, 1]) exDist 2 2).map fun e => (e.index, e.core, e.reach)) =
+    [(0, some 6, none), (1, some 6, some 6)] := by
+  simp [Optics.optics, Optics.outerStep, Optics.seedLoop, Optics.seedStep, Optics.getSeeds, Optics.init,
+    Optics.coreDist, Optics.findNeighbors, Optics.isProcessed, Optics.setCore, Optics.setReach,
+    Optics.getReach, Optics.fmax, Optics.argminPos, exDist, List.range, List.range.loop,
+    List.mergeSort, List.MergeSort.Internal.splitInTwo]
+example : ∀ i, ∀ j ∈ (fun _ : Nat => [0, 1]) i, j < 2 := by
+  intro i j h; simp at h; omega
+
 /-- records without features (the index constructor reports `ZeroDimension`): DBSCAN returns one
 `None` per sample (this is the behaviour recorded as finding `C08-zero-features-dbscan`) -/
 theorem dbscan_zero_dimension (mp n : Nat) :
     dbscan none mp n = List.replicate n none := rfl
 
 example : dbscan none 2 3 = [none, none, none] := by decide
+
+/-! ## hyper-parameter guard (`ParamGuard::check` of `DbscanParams` / `OpticsParams`) -/
+section params
+variable {α : Type} [LinearOrder α] [OfNat α 0]
+
+/-- DBSCAN: `check` accepts exactly `min_points ≥ 2 ∧ tolerance > 0` and returns the parameters unchanged -/
+theorem dbscan_params_check_iff (p q : Dbscan.Params α) :
+    p.check = .ok q ↔ (2 ≤ p.minPoints ∧ 0 < p.tolerance ∧ q = p) := by
+  unfold Dbscan.Params.check
+  by_cases h1 : p.minPoints ≤ 1
+  · simp [h1]; omega
+  · by_cases h2 : p.tolerance ≤ 0
+    · simp [h1, h2]; intro _ h; exact absurd h (not_lt.mpr h2)
+    · simp only [h1, h2, if_false, Except.ok.injEq]
+      exact ⟨fun e => ⟨by omega, not_le.mp h2, e.symm⟩, fun e => e.2.2.symm⟩
+
+/-- DBSCAN tests `min_points` first: the error is `MinPoints` iff `min_points ≤ 1`, and `Tolerance` iff
+`min_points ≥ 2` and `tolerance ≤ 0` -/
+theorem dbscan_params_check_error (p : Dbscan.Params α) :
+    (p.check = .error .minPoints ↔ p.minPoints ≤ 1) ∧
+    (p.check = .error .tolerance ↔ 2 ≤ p.minPoints ∧ p.tolerance ≤ 0) := by
+  unfold Dbscan.Params.check
+  by_cases h1 : p.minPoints ≤ 1
+  · simp [h1]; omega
+  · by_cases h2 : p.tolerance ≤ 0
+    · simp [h1, h2]; omega
+    · simp [h1, h2]
+
+/-- OPTICS: same accepted set -/
+theorem optics_params_check_iff (p q : Optics.Params α) :
+    p.check = .ok q ↔ (2 ≤ p.minPoints ∧ 0 < p.tolerance ∧ q = p) := by
+  unfold Optics.Params.check
+  by_cases h2 : p.tolerance ≤ 0
+  · simp [h2]; intro _ h; exact absurd h (not_lt.mpr h2)
+  · by_cases h1 : p.minPoints ≤ 1
+    · simp [h1, h2]; omega
+    · simp only [h1, h2, if_false, Except.ok.injEq]
+      exact ⟨fun e => ⟨by omega, not_le.mp h2, e.symm⟩, fun e => e.2.2.symm⟩
+
+/-- OPTICS tests the tolerance first (the other order than DBSCAN) -/
+theorem optics_params_check_error (p : Optics.Params α) :
+    (p.check = .error .tolerance ↔ p.tolerance ≤ 0) ∧
+    (p.check = .error .minPoints ↔ 0 < p.tolerance ∧ p.minPoints ≤ 1) := by
+  unfold Optics.Params.check
+  by_cases h2 : p.tolerance ≤ 0
+  · simp [h2]; intro h; exact absurd h (not_lt.mpr h2)
+  · by_cases h1 : p.minPoints ≤ 1
+    · simp [h1, h2]; exact not_le.mp h2
+    · simp [h1, h2]
+
+example : (Dbscan.Params.new (1 : Int) 3).check = .ok ⟨3, 1⟩ := by
+  simp [Dbscan.Params.check, Dbscan.Params.new]
+example : ((Dbscan.Params.new (1 : Int) 1).withTolerance 0).check = .error .minPoints := by
+  simp [Dbscan.Params.check, Dbscan.Params.new, Dbscan.Params.withTolerance]
+example : ((Optics.Params.new (1 : Int) 1).withTolerance 0).check = .error .tolerance := by
+  simp [Optics.Params.check, Optics.Params.new, Optics.Params.withTolerance]
+
+/-- the dataset form passes the records on untouched and its targets are the labels of the array form -/
+theorem dbscan_dataset_form {R T : Type} (nbrs : R → Option (Nat → List Nat)) (nrows : R → Nat) (mp : Nat)
+    (ds : R × T) :
+    (transformDataset nbrs nrows mp ds).1 = ds.1 ∧
+    (transformDataset nbrs nrows mp ds).2 = dbscan (nbrs ds.1) mp (nrows ds.1) := ⟨rfl, rfl⟩
+
+end params
 
 end LinfaSpec.Props.C08
